@@ -4,7 +4,9 @@ Harnesses ``aio-tcp`` / ``aio-udp``: a real ``AsyncTCPNetworkServer`` / ``AsyncU
 ``SimEventLoop``.  1–3 caller tasks issue a history of ≤ 7 calls from {serve_forever (inline or as a background task), shutdown,
 server_close, is_serving, connect-a-client-and-do-a-request}; the world chooses the yield points between calls
 (``asyncio.sleep(0)`` × k or short virtual sleeps), the duration of ``service_init`` (widens the set-up window), of name
-resolution (widens the activation window), of the request handler, and the selector perturbations.
+resolution (widens the activation window), of the request handler, and the selector perturbations.  ``aio-tcp`` also draws
+"descriptor exhaustion" episodes: the next 1-3 ``accept()`` calls of the listeners fail with EMFILE/ENFILE/ENOBUFS/ENOMEM, the listener
+sits in its documented 0.1 s retry pause, and the lifecycle calls that follow (shutdown, server_close, the restart) meet it there.
 
 Then an epilogue (part of the history, actor ``epi``) stops whatever is still serving, and — when nobody closed the server —
 checks "a stopped-not-closed server accepts and answers a client after the next serve_forever", closes the server, checks
@@ -18,6 +20,8 @@ is open; no call hangs (virtual-time bound once no further call is pending).
 from __future__ import annotations
 
 import asyncio
+import errno as _errno
+import os
 import socket as _socket
 from typing import Any, Awaitable, Callable
 
@@ -49,14 +53,18 @@ RULE = (
     "histories of 1-7 calls from {serve_forever inline, serve_forever in a background task, shutdown, server_close, is_serving, "
     "client request} distributed over 1-3 caller tasks of a real AsyncTCPNetworkServer / AsyncUDPNetworkServer (1 or 2 listeners), "
     "yield points between calls chosen from {none, sleep(0) x 1..3, 1/64 s, 2..8/64 s}, service_init / name-resolution / handler "
-    "durations chosen per run, selector hold/reorder/spurious readiness; followed by an epilogue (shutdown, serve-again + client, "
-    "server_close, serve_forever on the closed server). A third of the runs use no explicit yields and no selector perturbation. "
-    "Non-trivial run = a yield/selector fault fired and >= 1 call completed."
+    "durations chosen per run, selector hold/reorder/spurious readiness; aio-tcp: before a drawn call (1/4 of the calls of perturbed runs) "
+    "the process runs out of descriptors: the next 1-3 accept() calls of the listeners fail with EMFILE/ENFILE/ENOBUFS/ENOMEM (<= 6 per "
+    "run; over before the epilogue serves again), the listener pauses 0.1 s before each retry and a shutdown/server_close of the history "
+    "or of the epilogue lands inside that pause (probe shutdown_in_accept_capacity_pause), then the server is restarted; followed by an epilogue (shutdown, serve-again + client, "
+    "server_close, serve_forever on the closed server). A third of the runs use no explicit yields, no selector perturbation and no accept fault. "
+    "Non-trivial run = a yield/selector/accept fault fired and >= 1 call completed."
 )
 COMPONENTS_REAL = [
     "easynetwork.servers._base.BaseAsyncNetworkServerImpl (serve_forever / shutdown / server_close / server_activate / is_serving)",
     "easynetwork.servers.async_tcp.AsyncTCPNetworkServer, easynetwork.servers.async_udp.AsyncUDPNetworkServer",
     "easynetwork.lowlevel.api_async.servers.{stream,datagram}, listeners, AsyncIOBackend task groups / cancel scopes / locks",
+    "easynetwork.lowlevel.api_async.backend._asyncio.stream.listener.ListenerSocketAdapter (serve / raw_accept incl. the accept-capacity retry pause)",
     "asyncio selector event loop, sock_accept, _SelectorDatagramTransport (CPython 3.12)",
 ]
 COMPONENTS_STUB = ["SimSocket listeners and connections", "SimSelector", "virtual clock", "name resolution table", "client peer (raw bytes / datagrams)"]
@@ -71,6 +79,13 @@ SERVE_ERRORS = {"ServerClosedError": L.CLOSED_ERROR, "ServerAlreadyRunning": L.R
 CLIENT_WAIT = 1.5  # virtual seconds a client waits for its answer
 CALL_BOUND = 20.0  # virtual seconds within which every call must return once nothing else is pending
 PORT = 5000
+# accept(2) errors the stream listener documents as "the system is out of resources: pause 0.1 s, then go on accepting"
+# (lowlevel/constants.py ACCEPT_CAPACITY_ERRNOS; spelled out here on purpose).  Linux reserves the descriptor before it looks at
+# the queue, so an exhausted process gets them from every accept() call, queued connection or not.
+CAPACITY_ERRNOS = ("EMFILE", "ENFILE", "ENOBUFS", "ENOMEM")
+CAPACITY_PAUSE = 0.1  # documented retry pause (virtual seconds): only used to count shutdowns that land inside it
+CAPACITY_MAX_PENDING = 3  # accept() calls that may be doomed at any time ...
+CAPACITY_MAX_TOTAL = 6  # ... and per run: the pauses together stay far below CLIENT_WAIT, so a serving server still answers in time
 
 
 # ================================================================================================ history recorder (engine-neutral)
@@ -163,6 +178,12 @@ class LifecycleRecorder:
         self._guard(self.model.observe_is_serving, value)
 
 
+def _leaves(exc: BaseException) -> list[BaseException]:
+    if isinstance(exc, BaseExceptionGroup):
+        return [leaf for e in exc.exceptions for leaf in _leaves(e)]
+    return [exc]
+
+
 class _UpEvent:
     def __init__(self, rec: LifecycleRecorder, opid: int):
         self.rec = rec
@@ -204,17 +225,30 @@ class Run:
         self.ntasks = 1 + world.choose("ntasks", 3)
         nops = 1 + world.choose("nops", 7)
         self.programs: list[list[tuple]] = [[] for _ in range(self.ntasks)]
+        # accept-capacity fault (TCP): right before a drawn call of the history the process "runs out of descriptors": the next 1-3
+        # accept() calls of the server's listeners fail with EMFILE & co (a real per-call socket error), the listener pauses 0.1 s
+        # before each retry.  A shutdown()/server_close() of another task - or of the same one after a short yield - lands inside
+        # that pause; the calls that follow (and the epilogue) tell whether the stopped server can still serve again.
+        self.accept_faults: list[str] = []  # names of the errors the next accept() calls fail with
+        self.accept_faults_fired = 0
+        self.pause_until = -1.0
         for _ in range(nops):
             t = world.choose("task", self.ntasks)
             op = OPS[world.choose("op", len(OPS))]
-            self.programs[t].append((op, self._draw_yield()))
+            ysp = self._draw_yield()
+            exh: tuple | None = None
+            if kind == "tcp" and self.perturb and world.chance("exhaust", 1, 4):
+                exh = (1 + world.choose("exhaust_n", CAPACITY_MAX_PENDING), CAPACITY_ERRNOS[world.choose("exhaust_errno", len(CAPACITY_ERRNOS))])
+            self.programs[t].append((op, ysp, exh))
+        if kind == "tcp":
+            self.net.fault_plan = self._accept_fault
         self.registered: dict[int, SimSocket] = {}  # listener sockets the server exposed through get_sockets()
         self.bg: list[asyncio.Task] = []
         self.blocked_in_serve = [False] * self.ntasks
         self.current: dict[str, str] = {}  # actor -> call in progress (for the no-deadlock message)
         self.nclients = 0
         self.srv: Any = None
-        world.notes.update(harness=self.harness, host=self.host, programs=[[op for op, _ in p] for p in self.programs], init_delay=self.init_delay, handle_delay=self.handle_delay, quit_delay=self.quit_delay, dns_delay=self.backend.getaddrinfo_delay, perturb=self.perturb)
+        world.notes.update(harness=self.harness, host=self.host, programs=[[op if exh is None else f"{exh[1]}x{exh[0]}+{op}" for op, _, exh in p] for p in self.programs], init_delay=self.init_delay, handle_delay=self.handle_delay, quit_delay=self.quit_delay, dns_delay=self.backend.getaddrinfo_delay, perturb=self.perturb)
 
     # -------------------------------------------------- yields
     def _draw_yield(self) -> tuple:
@@ -237,6 +271,30 @@ class Run:
         elif spec[0] == "sleep":
             self.world.fault("delay")
             await asyncio.sleep(spec[1] / 64.0)
+
+    # -------------------------------------------------- accept-capacity fault
+    def exhaust(self, actor: str, exh: tuple | None) -> None:
+        if exh is None:
+            return
+        n, name = exh
+        n = min(n, CAPACITY_MAX_PENDING - len(self.accept_faults), CAPACITY_MAX_TOTAL - self.accept_faults_fired - len(self.accept_faults))
+        if n <= 0:
+            return
+        self.world.log("exhaust", actor, name, n)
+        self.accept_faults.extend([name] * n)
+
+    def _accept_fault(self, sock: SimSocket, op: str) -> OSError | None:
+        """net-wide per-call fault plan: only accept() of the server's listeners is ever faulted"""
+        if op != "accept" or not self.accept_faults:
+            return None
+        name = self.accept_faults.pop(0)
+        self.accept_faults_fired += 1
+        self.pause_until = self.world.now + CAPACITY_PAUSE
+        self.world.fault("accept_error")
+        self.world.probe("accept_capacity_error" + ("" if sock.accept_q else "@empty-queue"))
+        self.world.log("accept_fails", sock.label, name)
+        code = getattr(_errno, name)
+        return OSError(code, os.strerror(code))
 
     def register_service_quit(self, exit_stack: Any, server: Any) -> None:
         """service tear-down that takes virtual time and is protected from cancellation ("flush state before quitting"): it is
@@ -329,6 +387,8 @@ class Run:
             name = type(exc).__name__
             outcome = table.get(name, name)
             detail = f"{name}: {exc}"[:300]
+            if isinstance(exc, BaseExceptionGroup):  # message only: what the task group actually died of
+                detail += " <- " + "; ".join(f"{type(e).__name__}: {e}"[:120] for e in _leaves(exc)[:4])
         else:
             outcome = L.NONE
             detail = ""
@@ -341,6 +401,8 @@ class Run:
         return await self._call(actor, L.SERVE, lambda opid: self.srv.serve_forever(is_up_event=_UpEvent(self.rec, opid)), SERVE_ERRORS)
 
     async def do_shutdown(self, actor: str) -> str:
+        if self.world.now < self.pause_until and self.rec.model.possibly(L.SERVING):
+            self.world.probe("shutdown_in_accept_capacity_pause")
         out = await self._call(actor, L.SHUTDOWN, lambda opid: self.srv.shutdown(), {})
         # "... and is_serving() is false": evaluated in the same task step as the return
         self.rec.is_serving(actor, bool(self.srv.is_serving()))
@@ -426,10 +488,11 @@ class Run:
     # -------------------------------------------------- caller tasks
     async def caller(self, idx: int) -> None:
         actor = f"t{idx}"
-        for op, ysp in self.programs[idx]:
+        for op, ysp, exh in self.programs[idx]:
             await self._yield(ysp)
             if self.world.fatal is not None:
                 return
+            self.exhaust(actor, exh)
             if op == "serve":
                 self.blocked_in_serve[idx] = True
                 try:
@@ -505,6 +568,9 @@ class Run:
             await self.quiesce(tasks)
             # ---- a stopped-not-closed server accepts and answers a client after the next serve_forever
             if not self.rec.model.close_invoked:
+                if self.accept_faults:  # descriptors are available again: the restarted server has CLIENT_WAIT to answer
+                    self.world.log("exhaust", "epi", "over", len(self.accept_faults))
+                    self.accept_faults.clear()
                 t = asyncio.create_task(self.do_serve("epi.bg"), name="c18-epi-bg")
                 self.bg.append(t)
                 deadline = self.world.now + CALL_BOUND
